@@ -425,6 +425,14 @@ fn check_len<T: El>(len: usize) -> Result<(), String> {
     arr_checks::<T, 3>(s, &mut m)?;
     arr_checks::<T, 4>(s, &mut m)?;
     arr_checks::<T, 5>(s, &mut m)?;
+    // even sizes that are not powers of two (a mask instead of a modulo is only right for powers of two)
+    arr_checks::<T, 6>(s, &mut m)?;
+    arr_checks::<T, 10>(s, &mut m)?;
+    arr_checks::<T, 12>(s, &mut m)?;
+    arr_checks::<T, 14>(s, &mut m)?;
+    arr_checks::<T, 20>(s, &mut m)?;
+    arr_checks::<T, 24>(s, &mut m)?;
+    arr_checks::<T, 48>(s, &mut m)?;
     arr_checks::<T, 7>(s, &mut m)?;
     arr_checks::<T, 8>(s, &mut m)?;
     arr_checks::<T, 9>(s, &mut m)?;
